@@ -66,14 +66,14 @@ type hasherT struct {
 	hash func(int) uint32
 }
 
-func (h hasherT) Eqv(a, b int) bool  { return a == b }
+func (h hasherT) Eqv(a, b int) bool { return a == b }
 func (h hasherT) Hash(k int) uint32 { return h.hash(k) }
 
 var hashers = []fp.Hashable[int]{
 	hasherT{"identity", func(k int) uint32 { return uint32(k) }},
-	hasherT{"low3", func(k int) uint32 { return uint32(k) & 7 }},     // full-hash collisions
-	hasherT{"const", func(k int) uint32 { return 7 }},                // one collision node
-	hasherT{"high", func(k int) uint32 { return uint32(k) << 27 }},   // deep paths
+	hasherT{"low3", func(k int) uint32 { return uint32(k) & 7 }},   // full-hash collisions
+	hasherT{"const", func(k int) uint32 { return 7 }},              // one collision node
+	hasherT{"high", func(k int) uint32 { return uint32(k) << 27 }}, // deep paths
 	hasherT{"mul", func(k int) uint32 { return uint32(k) * 2654435761 }},
 	hash.Number[int](),
 }
@@ -165,7 +165,9 @@ func (h *hist) items(n int) []int {
 	}
 	return s
 }
-func (h *hist) arg(format string, a ...any) { h.cur.args = append(h.cur.args, fmt.Sprintf(format, a...)) }
+func (h *hist) arg(format string, a ...any) {
+	h.cur.args = append(h.cur.args, fmt.Sprintf(format, a...))
+}
 
 // pure callbacks, selected by the case PRNG
 func (h *hist) fn() func(int) int {
@@ -666,12 +668,12 @@ func main() {
 			"race batches (thorough): 2 goroutines apply read-only operations to shared live values; only reports with a frame under /repo count",
 		},
 		Floors: func(tier string) map[string]int64 {
-			f := map[string]int64{"snapshots_compared": 100000, "ops.on_value_sharing_storage": 1000, "distinct": 200, "builder.refused_after_build": 1, "concurrent.rounds": 10, "live.tries_with_hash_array_node": 50, "live.tries_with_collision_node": 50, "live.tries_with_bitmap_node": 50, "live.tries_with_array_node": 50, "live.collections_backed_by_go_map": 50}
+			f := map[string]int64{"snapshots_compared": 1000000, "ops.on_value_sharing_storage": 10000, "distinct": 2000, "results.sharing_storage_with_input": 5000, "builder.refused_after_build": 1, "concurrent.rounds": 10, "live.tries_with_hash_array_node": 50, "live.tries_with_collision_node": 50, "live.tries_with_bitmap_node": 50, "live.tries_with_array_node": 50, "live.collections_backed_by_go_map": 50}
 			for _, op := range ops {
-				f["hit."+op.name] = 1
+				f["hit."+op.name] = 5
 			}
 			for _, n := range extraHitNames {
-				f["hit."+n] = 1
+				f["hit."+n] = 5
 			}
 			return f
 		},
